@@ -128,8 +128,12 @@ def gen_case(rng, params, idx):
             m = {"mid": i, "pos": pos, "kw": kw, "prio": rng.choice([0, 0, 0, 1, -1]), "kind": "leaf"}
         methods.append(m)
     gen.strict_first(rng, methods, 0.15)
-    return {"hier": hier, "methods": methods, "npos": npos, "exh": False,
-            "callseed": rng.randrange(1 << 30)}
+    spec = {"hier": hier, "methods": methods, "npos": npos, "exh": False, "callseed": rng.randrange(1 << 30)}
+    if len(methods) >= 2 and rng.random() < 0.3:
+        # the same method set, assembled through a variant / two mixins / a linkback copy whose parent grows later
+        spec["mode"] = rng.choice(["variant", "mixin", "linkback"])
+        spec["split"] = rng.randint(1, len(methods) - 1)
+    return spec
 
 
 def _calls(spec, env):
@@ -162,7 +166,8 @@ def check_case(spec, res):
     env = T.Env(spec["hier"])
     try:
         prog = Program(spec, env=env, tag="c02")
-        prog.ov.compile()
+        if spec.get("mode") != "linkback":      # a linkback copy must have followed its parent by itself
+            prog.ov.compile()
     except Exception as e:  # noqa: BLE001
         res.violation("build-failed", [type(e).__name__], spec, observed=f"{type(e).__name__}: {e}"[:200],
                       acceptable="a method set with consistent names builds")
@@ -171,6 +176,8 @@ def check_case(spec, res):
     res.count("programs")
     if spec["exh"]:
         res.count("programs_exhaustive")
+    if spec.get("mode"):
+        res.count("programs_assembled_" + spec["mode"])
     res.sample(spec, "exhaustive" if spec["exh"] else "random")
     sigs = [R.sig_identical(a, b) for a, b in itertools.combinations(methods, 2)]
     if any(sigs):
